@@ -91,6 +91,8 @@ VALUES = [
     [[1]],
     [{"__ns__": {"a": 1}}],
     {"__ns__": {}},
+    [None, {"__ns__": {"a": 1}}],  # heterogeneous list: a namespace that is not the first element
+    {"__dict__": {"x": 1, "y": {"__ns__": {"a": 1}}}},  # dict value with one namespace among plain values
 ]
 NS_VALUES = [i for i, v in enumerate(VALUES) if isinstance(v, dict) and "__ns__" in v]
 SETATTR_VALUES = [0, 4, 6]
